@@ -402,7 +402,7 @@ fn summarize(u: &[Unit]) -> Vec<String> {
 }
 
 /// run one or two programs as consecutive commands (text or binary), each followed by a PING
-fn run_programs(progs: &[&Prog], kmap: &[usize; 3], bin: bool, st: &mut Stats) -> Result<(), Violation> {
+fn run_programs(progs: &[&Prog], kmap: &[usize; 3], bin: bool, env: u64, st: &mut Stats) -> Result<(), Violation> {
     let cols = [mk_cols(kmap[0]), mk_cols(kmap[1]), mk_cols(kmap[2])];
     let interps: Vec<Interp> = progs.iter().map(|p| interpret(p, kmap, &cols)).collect();
     let mut cmds = Vec::new();
@@ -419,11 +419,16 @@ fn run_programs(progs: &[&Prog], kmap: &[usize; 3], bin: bool, st: &mut Stats) -
         }
         cmds.push(ping());
     }
-    let conv = Conv::new(cmds);
+    let mut conv = Conv::new(cmds);
+    env_conv(env, &mut conv);
     let s = conv.stream();
     let stream = Arc::new(s.bytes);
     let mut sim = sim_for(&stream, vec![]);
     sim.log_ops = false;
+    env_sim(env, &mut sim, &conv);
+    if env % N_ENVS != 0 {
+        st.bump("runs_under_another_environment");
+    }
     let wprogs: Vec<Arc<Vec<WOp>>> = interps.iter().map(|i| Arc::new(i.wops.clone())).collect();
     let mut next = 0usize;
     let behave = Box::new(move |_: usize, cb: &Cb| match cb {
@@ -528,6 +533,8 @@ pub struct ProgFamily {
     label: String,
     progs: Vec<Prog>,
     kmap: [usize; 3],
+    /// programs of at most this many calls run under every environment variant
+    all_envs_upto: usize,
 }
 
 impl Family for ProgFamily {
@@ -543,14 +550,25 @@ impl Family for ProgFamily {
         if p.len() >= 3 {
             st.nontrivial += 1;
         }
-        run_programs(&[p], &self.kmap, bin, st).map_err(|mut v| {
-            v.key = format!("{}:{}", if bin { "bin" } else { "text" }, v.key);
-            v
-        })
+        // the environment rotates with the program index; short programs run under all of them
+        let envs: Vec<u64> = if p.len() <= self.all_envs_upto { (0..N_ENVS).collect() } else { vec![(idx / 2) % N_ENVS] };
+        for (j, env) in envs.iter().enumerate() {
+            if j > 0 {
+                st.evals += 1;
+            }
+            run_programs(&[p], &self.kmap, bin, *env, st).map_err(|mut v| {
+                v.key = format!("{}:{}", if bin { "bin" } else { "text" }, v.key);
+                if *env != 0 {
+                    v.msg = format!("[{}] {}", env_name(*env), v.msg);
+                }
+                v
+            })?;
+        }
+        Ok(())
     }
     fn describe(&self, idx: u64) -> J {
         let p = &self.progs[(idx / 2) as usize];
-        json!({"mode": if idx % 2 == 1 {"binary (COM_STMT_EXECUTE)"} else {"text (COM_QUERY)"}, "program": prog_names(p, &self.kmap), "then": "COM_PING sentinel"})
+        json!({"mode": if idx % 2 == 1 {"binary (COM_STMT_EXECUTE)"} else {"text (COM_QUERY)"}, "program": prog_names(p, &self.kmap), "then": "COM_PING sentinel", "environment": if p.len() <= self.all_envs_upto { "all six".to_string() } else { env_name((idx / 2) % N_ENVS).to_string() }})
     }
 }
 
@@ -572,7 +590,7 @@ impl Family for PairFamily {
         let b = &self.progs[((idx / 2) % n) as usize];
         st.nontrivial += 1;
         st.bump("pairs");
-        run_programs(&[a, b], &[0, 1, 2], bin, st).map_err(|mut v| {
+        run_programs(&[a, b], &[0, 1, 2], bin, (idx / 2) % N_ENVS, st).map_err(|mut v| {
             v.key = format!("pair:{}:{}", if bin { "bin" } else { "text" }, v.key);
             v
         })
@@ -736,11 +754,13 @@ pub fn build(quick: bool) -> Check {
         label: format!("writer-programs-depth-{}", depth),
         progs: programs(depth, &[0, 1, 2]),
         kmap: [0, 1, 2],
+        all_envs_upto: if quick { 4 } else { 6 },
     };
     let wide = ProgFamily {
         label: "writer-programs-k3-k300".into(),
         progs: programs(if quick { 4 } else { 5 }, &[0, 3, 300]),
         kmap: [0, 3, 300],
+        all_envs_upto: 0,
     };
     let pairs = PairFamily {
         progs: programs(if quick { 3 } else { 4 }, &[0, 1, 2]),
@@ -749,17 +769,19 @@ pub fn build(quick: bool) -> Check {
         label: "long-replies".into(),
         progs: long_programs(),
         kmap: [0, 1, 2],
+        all_envs_upto: 0,
     };
     let long_wide = ProgFamily {
         label: "long-replies-300-columns".into(),
         progs: vec![vec![START1, WROW_K, WROW_K, FINISH], vec![START1, WCOL_V, END_ROW, FINISH]],
         kmap: [0, 300, 2],
+        all_envs_upto: 0,
     };
     let n_main = main.progs.len();
     Check {
         id: "C03",
         level: "model_checking",
-        rule: format!("every complete program of <= {} writer calls through the typestate automaton (start(0|1|2 cols), write_col(v|NULL), end_row, write_row(0|k|k+1), finish, finish_one, finish_error, complete_one, completed, error, no_more_results, drop), in text and binary mode, each followed by a PING sentinel ({} programs); wide variants (k=3, k=300); all ordered pairs of short programs; library replies and silent commands; replies of 245..262, 300, 520, 1000 rows, 300 columns, and chains of 70..300 resultsets / completions. Oracle: reference interpreter -> predicted response units vs strict decode; shape-contradicting programs must be refused at or before the call that closes the malformed row and nothing malformed may reach the transport. Non-trivial = program of >= 3 calls.", depth, n_main),
+        rule: format!("every complete program of <= {} writer calls through the typestate automaton (start(0|1|2 cols), write_col(v|NULL), end_row, write_row(0|k|k+1), finish, finish_one, finish_error, complete_one, completed, error, no_more_results, drop), in text and binary mode, each followed by a PING sentinel ({} programs); wide variants (k=3, k=300); all ordered pairs of short programs; library replies and silent commands; replies of 245..262, 300, 520, 1000 rows, 300 columns, and chains of 70..300 resultsets / completions. Environment: every program of <= 4 (thorough: 6) calls runs under each of six client/transport variants (other handshake layouts and capability sets, 1- and 7-byte transport writes, 3-byte reads, lock-step client); longer programs and pairs rotate through them. Oracle: reference interpreter -> predicted response units vs strict decode; shape-contradicting programs must be refused at or before the call that closes the malformed row and nothing malformed may reach the transport. Non-trivial = program of >= 3 calls.", depth, n_main),
         assumptions: vec![
             "a fresh QueryResultWriter that is dropped or told no_more_results without starting anything is outside the property and not generated".into(),
             "a malformed row closed by drop has no call result: refusal is then 'run_on returns the deferred error'".into(),
@@ -768,6 +790,6 @@ pub fn build(quick: bool) -> Check {
         exhaustive: true,
         caps_hit: vec![],
         families: vec![Box::new(main), Box::new(wide), Box::new(pairs), Box::new(BuiltinFamily), Box::new(long), Box::new(long_wide)],
-        required: vec!["shape_contradicting_programs", "chained_responses", "programs_ending_in_drop", "malformed_row_closed_by_drop", "pairs", "builtin"],
+        required: vec!["runs_under_another_environment", "shape_contradicting_programs", "chained_responses", "programs_ending_in_drop", "malformed_row_closed_by_drop", "pairs", "builtin"],
     }
 }
